@@ -44,7 +44,7 @@ REQUIRED_TALLIES = [('outcome', 'rejected'), ('outcome', 'grown'), ('derivation'
 
 _DTYPES = ['bool', 'int64', 'float64', '<U5', 'object', 'M8[D]', 'int8']
 _GROW = ['setitem_array', 'setitem_list', 'setitem_scalar', 'setitem_generator', 'setitem_series', 'setitem_series_unaligned',
-         'setitem_dup', 'setitem_wrong_len', 'setitem_2d', 'setitem_frame', 'extend_frame', 'extend_frame_dup', 'extend_frame_partial_dup',
+         'setitem_dup', 'setitem_wrong_len', 'setitem_wrong_len_iterator', 'extend_items_wrong_len_iterator', 'setitem_2d', 'setitem_frame', 'extend_frame', 'extend_frame_dup', 'extend_frame_partial_dup',
          'extend_frame_unaligned', 'extend_frame_empty', 'extend_series', 'extend_series_dup', 'extend_items', 'extend_items_dup_mid',
          'extend_items_raising_generator', 'columns_append_by_user']
 _DERIVE = ['to_frame', 'to_frame_go', 'to_frame_he', 'frame_init', 'framego_init', 'framego_from_static', 'select_cols', 'relabel', 'rename',
@@ -331,6 +331,17 @@ def _do_grow(ctx, f, model, step, klass):
         elif kind == 'setitem_wrong_len':
             expect_reject = True
             f[labs[0]] = np.arange(nr + 1 + rng.randint(0, 2))
+        elif kind in ('setitem_wrong_len_iterator', 'extend_items_wrong_len_iterator'):
+            # a one-shot iterable has no len(): its length is only known once it has been consumed into an array
+            expect_reject = True
+            n_bad = rng.choice([nr + 1, nr + 2, max(0, nr - 1)]) if nr else 1
+            form = rng.choice(['generator', 'map', 'iter'])
+            src = list(range(n_bad))
+            bad = (x for x in src) if form == 'generator' else map(int, src) if form == 'map' else iter(src)
+            if kind == 'setitem_wrong_len_iterator':
+                f[labs[0]] = bad
+            else:
+                f.extend_items([(labs[0], bad)])
         elif kind in ('setitem_hier_nonlast_branch', 'setitem_hier_wrong_depth'):
             expect_reject = True
             f[labs[0]] = arr
